@@ -92,7 +92,7 @@ def fixed_cases(tier):
 def gen_case(rng, tier, i):
     r = rng.random()
     glass = rng.random() < 0.62
-    kw = dict(conic_p=0.0, asphere_p=0.0, glass_p=(0.85 if glass else 0.0), nwl=((3, 3) if glass else (1, 3)),
+    kw = dict(conic_p=0.0, asphere_p=0.0, glass_p=(0.85 if glass else 0.0), nwl=(((3, 3) if rng.random() < 0.75 else (1, 1)) if glass else (1, 3)),
               immersed_p=0.1, neg_power_p=0.3, image=('paraxial' if rng.random() < 0.5 else 'any'))
     if r < 0.25:
         kw['mirrors_p'] = 0.35
@@ -100,8 +100,14 @@ def gen_case(rng, tier, i):
     if 'obj_medium_p' in inspect.signature(L.gen_axial).parameters:
         kw['obj_medium_p'] = 0.15                     # finite objects immersed in a medium (n_0 != 1)
     spec, info = L.gen_axial(rng, **kw)
-    if rng.random() < 0.04:
+    r2 = rng.random()
+    if r2 < 0.04:
         spec['fields'] = [[0.0, 0.0, 0.0]]
+    elif r2 < 0.10:
+        # a tiny but non-zero field (the usual trick to get the field-independent terms of an on-axis design): the
+        # Lagrange invariant is ~1e-9, not zero - every term is defined
+        fm_ = max(abs(f[0]) for f in spec['fields']) or 1.0
+        spec['fields'] = [[0.0, 0.0, 0.0], [float(fm_ * 10.0 ** rng.uniform(-8.5, -6.5)), 0.0, 0.0]]
     case = dict(kind='random', spec=spec, info=info)
     if glass and rng.random() < 0.4:
         edits = gen_edits(rng, spec)
